@@ -103,7 +103,7 @@ S(id="D.diff.native", props=["C11"], spec="native/desc_diff_enum.c", mode="N", s
 S(id="P.cost.native", props=["C04"], spec="native/cost_enum.c", mode="N", link=["allocate.c", "hashtab.c", "objstack.c", "vlobject.c", "yaep.c"], harness="main", timeout=3000,
   params={"quick": {"CMAX": 2}, "thorough": {"CMAX": 3}},
   bound="five ambiguous description families (three alternatives for one token; an ambiguous symbol twice under a common node; two binary rules and a leaf rule over a^1..a^4; alternatives that "
-        "keep different children; ambiguity two levels down), abstract-node costs 0..2 (thorough 0..3) in every combination, lookahead 0..2, one / all parses",
+        "keep different children; ambiguity two levels down), abstract-node costs 0..2 (thorough 0..3) in every combination, lookahead 0..2, one / all parses, default allocator and a caller-supplied parse_alloc without parse_free",
   functions=["yaep_parse", "make_parse", "find_minimal_translation", "prune_to_minimal", "traverse_pruned_translation"],
   what="the oracle is the enumeration of the all-parses result without cost flag: with the flag the denoted set is exactly the minimal-cost translations (all parses) or one of them, without ALT "
        "node (one parse); every cost field is own cost + the children's fields and the root carries the minimum; without the flag the fields are the rules' own costs")
